@@ -42,7 +42,7 @@ static void grid_scenarios() {
     dscn<Grid>(dn + ".remove_higher_space_dimensions" + sfx, X, none, [](Grid& x, const Grid&) { x.remove_higher_space_dimensions(1); });
     dscn<Grid>(dn + ".expand_space_dimension" + sfx, X, none, [](Grid& x, const Grid&) { x.expand_space_dimension(Variable(0), 2); });
     dscn<Grid>(dn + ".fold_space_dimensions" + sfx, X, none, [](Grid& x, const Grid&) { Variables_Set vs; vs.insert(Variable(0)); x.fold_space_dimensions(vs, Variable(2)); });
-    dscn<Grid>(dn + ".map_space_dimensions" + sfx, X, none, [](Grid& x, const Grid&) { PF14 f; f.m.push_back(2); f.m.push_back(-1); f.m.push_back(0); x.map_space_dimensions(f); });
+    dscn<Grid>(dn + ".map_space_dimensions" + sfx, X, none, [](Grid& x, const Grid&) { PF14 f; f.m.push_back(1); f.m.push_back(-1); f.m.push_back(0); x.map_space_dimensions(f); });
     dscn<Grid>(dn + ".queries" + sfx, X, Y, [](Grid& x, const Grid& y) {
       (void) x.is_empty(); (void) x.is_universe(); (void) x.is_bounded(); (void) x.is_discrete(); (void) x.contains(y); (void) x.is_disjoint_from(y); (void) x.constrains(Variable(1));
       (void) x.relation_with((Variable(0) - Variable(1) %= 0) / 2); (void) x.relation_with(grid_point(Variable(0) + Variable(1)));
